@@ -43,6 +43,7 @@ type LoopSpec struct {
 	Ghost    []Clause // Label = name, Src = expression captured at loop entry
 	Inv      []Clause
 	Unroll   bool
+	WritesFresh bool // every heap write of the loop targets an object allocated after function entry (checked)
 	Modifies []string
 	Havoc    []string
 }
@@ -282,6 +283,8 @@ func (db *ContractDB) loadFile(fn string) error {
 					ls.Ghost = append(ls.Ghost, Clause{Label: strings.TrimSpace(kv[0]), Src: strings.TrimSpace(kv[1]), File: filepath.Base(fn), Line: ln})
 				case "unroll":
 					ls.Unroll = true
+				case "writes_fresh":
+					ls.WritesFresh = true
 				case "modifies":
 					for _, m := range splitTop(body, ',') {
 						ls.Modifies = append(ls.Modifies, strings.TrimSpace(m))
